@@ -90,7 +90,7 @@ def renderOps (op : String) (j : Json) : Option (Except String Json) :=
                        spyFilters := (bytesList spy "filters").toOption.getD [],
                        spyFunctions := (bytesList spy "functions").toOption.getD [],
                        spyTests := (bytesList spy "tests").toOption.getD [], failAt := failAt, globals := globals }
-      match renderTop E main vars with
+      match renderEntry E main vars with
       | .error e => pure (errJson e)
       | .ok (out, trace) =>
         pure (Proto.ok [("out", Proto.hex out),
